@@ -10,7 +10,7 @@ from ..core.shrink import Budget, ddmin_list
 from ..memsim.models import RefCache
 from . import gen as G
 from . import ir
-from .exec import run_ref, run_five, summary, cache_counters, REF_CAP
+from .exec import run_ref, run_five, summary, cache_counters, REF_CAP, SutConstructionError
 from .models import schedule, run_delayed
 
 SUMMARY_KEYS = ["regs", "mem", "output", "exit_code", "instruction_count", "branch_count", "procedure_count"]
@@ -751,7 +751,11 @@ class Programs(Batch):
     def execute(self, trace, prop):
         res = Result()
         hs = Hasher()
-        ORACLES[prop](trace, res, hs)
+        try:
+            ORACLES[prop](trace, res, hs)
+        except SutConstructionError as e:
+            res.violate(prop, "simulation-could-not-be-constructed", got=str(e)[:300],
+                        note="the constructor raised for a legal configuration")
         res.violations = [v for v in res.violations if v["property"] == prop]
         res.digest = hs.hexdigest()
         return res
